@@ -703,14 +703,21 @@ impl<'a> Gen<'a> {
             push!(self, json!(["intersection_area", null, u3, u2]));
         }
         // nms over a handful of boxes
+        let all_none = self.rng.chance(0.2);
         let mut dets = vec![];
         for _ in 0..2 + self.rng.usize(5) {
             let v = self.ubox(40.0, 40.0);
-            let sc = if self.rng.chance(0.7) { self.fl(0.0, 1.0) } else { Value::Null };
+            let sc = if all_none { Value::Null } else if self.rng.chance(0.7) { self.fl(0.0, 1.0) } else { Value::Null };
             dets.push(json!([v, sc]));
         }
         let thr = self.fl(0.1, 0.9);
-        let st = if self.rng.chance(0.5) { Value::Null } else { self.fl(0.0, 0.8) };
+        // score threshold: absent / inside the score range / in or above the range of the box heights (a box without a
+        // score is ranked by its height but is never removed by the score filter)
+        let st = match self.rng.usize(4) {
+            0 => Value::Null,
+            1 | 2 => self.fl(0.0, 0.8),
+            _ => self.fl(15.0, 70.0),
+        };
         let op = if self.rng.chance(0.5) { "nms" } else { "nms_kw" };
         push!(self, json!([op, null, dets, thr, st]));
         push!(self, json!(["version", null]));
@@ -833,7 +840,20 @@ impl<'a> Gen<'a> {
                 }
             }
         }
-        for name in chosen {
+        // a third of the option objects are configured the way interactive code does it: some setters are called again
+        // later with another value (the last call wins, every other option keeps its value)
+        let mut order: Vec<&str> = chosen.clone();
+        if self.rng.chance(0.35) {
+            for _ in 0..1 + self.rng.usize(4) {
+                let again = *self.rng.pick(&["visual_max_observations", "visual_max_observations", "visual_minimal_track_length", "visual_min_votes", "max_idle_epochs", "kept_history_length", "visual_minimal_quality_use", "positional_min_confidence"]);
+                let at = self.rng.usize(order.len() + 1);
+                order.insert(at, again);
+            }
+        }
+        let (mut cur_len, mut cur_max) = (3usize, 5usize);
+        let n_order = order.len();
+        for (pos, name) in order.into_iter().enumerate() {
+            let _ = (pos, n_order);
             let val = match name {
                 "max_idle_epochs" => json!(1 + self.rng.usize(5)),
                 "kept_history_length" => json!(1 + self.rng.usize(6)),
@@ -850,11 +870,19 @@ impl<'a> Gen<'a> {
                     json!(c)
                 }
                 "positional_metric" => self.metric(),
-                "visual_minimal_track_length" => json!(1 + self.rng.usize(2)),
+                "visual_minimal_track_length" => {
+                    let span = if self.rng.chance(0.8) { 2 } else { 4 };
+                    cur_len = 1 + self.rng.usize(span);
+                    json!(cur_len)
+                }
                 "visual_minimal_area" => json!(*self.rng.pick(&[0.0f64, 100.0, 400.0])),
                 "visual_minimal_quality_use" => json!(*self.rng.pick(&[0.25f64, 0.5, 0.5])),
                 "positional_min_confidence" => json!(*self.rng.pick(&[0.0625f64, 0.125, 0.25])),
-                "visual_max_observations" => json!(3 + self.rng.usize(4)),
+                "visual_max_observations" => {
+                    // may transiently be smaller than the minimal track length; only the final pair has to be consistent
+                    cur_max = if self.rng.chance(0.75) { 3 + self.rng.usize(4) } else { 1 + self.rng.usize(10) };
+                    json!(cur_max)
+                }
                 "visual_minimal_quality_collect" => json!(*self.rng.pick(&[0.0f64, 0.5, 0.75])),
                 "visual_minimal_own_area_percentage_use" => json!(*self.rng.pick(&[0.0f64, 0.25])),
                 "visual_minimal_own_area_percentage_collect" => json!(*self.rng.pick(&[0.0f64, 0.25])),
@@ -862,6 +890,14 @@ impl<'a> Gen<'a> {
                 _ => json!(*self.rng.pick(&[0.00625f32 as f64, 0.0078125, 0.015625])),
             };
             push!(self, json!(["opts_set", null, o, name, val]));
+            if self.rng.chance(0.15) {
+                push!(self, json!(["opts_repr", null, o]));
+            }
+        }
+        if cur_len > cur_max {
+            // make the pair consistent again through the setter of the larger one only
+            cur_max = cur_len + self.rng.usize(3);
+            push!(self, json!(["opts_set", null, o, "visual_max_observations", cur_max]));
         }
         push!(self, json!(["opts_repr", null, o]));
         let m = if self.rng.chance(0.5) { json!(["vmetric_repr", null, "euclidean", 1.5]) } else { json!(["vmetric_repr", null, "cosine", 0.5]) };
